@@ -164,10 +164,13 @@ func FixIdiomaticArray(input string) (string, error) {
 	const _TOKEN = "ARRAY"
 	indexes, err := FindArrayIndex(input)
 	if err != nil {
-		panic(err)
+		return "", err
 	}
 	offset := 0
 	for _, index := range indexes {
+		if index[1] <= index[0] {
+			return "", fmt.Errorf("unbalanced brackets")
+		}
 		str := input[:index[0]+offset]
 		str += _TOKEN
 		str += "("
